@@ -67,7 +67,7 @@ class Recorder:
         self.post_on_ok = True
         self.counts = {"ok": 0, "refused": 0, "crash": 0, "no_tree": 0,
                        "super_calls": 0, "too_deep": 0, "text_written": 0,
-                       "text_inferred": 0}
+                       "text_inferred": 0, "writer_flaky": 0}
         self.text_every = 1         # write the text of every n-th unchanged post
         self.crash_types = {}
         self.context = ""           # e.g. pytest node id
@@ -218,6 +218,15 @@ class Recorder:
                     post = self._fp(roots, numbering,
                                     outcome == "ok" and depth == 0,
                                     infer_from=infer)
+                if (post is not None and post.text != pre.text
+                        and post.syms == pre.syms and post.tree == pre.tree
+                        and (pre.raw[0].startswith("ERR:")
+                             or post.raw[0].startswith("ERR:"))):
+                    # the writer answered differently for identical dumps:
+                    # not something the attempt did to the tree
+                    self.counts["writer_flaky"] += 1
+                    post.text = pre.text
+                    post.raw = (pre.raw[0],) + tuple(post.raw[1:])
                 self.counts[outcome] += 1
                 line = ["E", seq, outcome] + (post.triple() if post else ["", "", ""])
                 sess["lines"].append(line)
